@@ -343,8 +343,8 @@ def main(tier, replay=None):
     if not proof_ok:
         run.notes.append(run.proof_problem)
 
-    cases, failing, impl_fail = structural(run, 1500 if thorough else 300, 6 if thorough else 4)
-    bad_real = leaf_contract_real(run, 12 if thorough else 4) + e2e_real(run, 400 if thorough else 80)
+    cases, failing, impl_fail = structural(run, 6000 if thorough else 300, 6 if thorough else 4)
+    bad_real = leaf_contract_real(run, 40 if thorough else 4) + e2e_real(run, 2000 if thorough else 80)
     replay_known(run)
     new_real = classify_real(run, bad_real)
     run.cov["tested_only"] = ["leaf contract of real element classes vs the code (float tolerance 1e-11)",
